@@ -73,7 +73,7 @@ def assume_classinv(ex, st, v, kind):
                 st.assume(z3.Implies(v.t != w.null, t))
 
 
-def verify_function(world, cname, prop, timeout_ms=QUICK_TIMEOUT_MS, source_override=None, refine_of=None):
+def verify_function(world, cname, prop, timeout_ms=QUICK_TIMEOUT_MS, source_override=None, refine_of=None, part=None):
     """Verify the real body of `cname` against its contract (or, for refinement, against contract refine_of)."""
     res = FnResult(cname)
     res.contract_name = refine_of or cname
@@ -91,6 +91,14 @@ def verify_function(world, cname, prop, timeout_ms=QUICK_TIMEOUT_MS, source_over
         ex = Executor(world, fn_label=f"{prop}:{cname}")
         ex.contract = c
         ex.max_inst_depth = c.inst_depth
+
+        def loops_in_order(node, acc):
+            for ch in ast.iter_child_nodes(node):
+                if isinstance(ch, (ast.For, ast.While)):
+                    acc.append(ch)
+                loops_in_order(ch, acc)
+            return acc
+        ex.loop_ids = {id(n): k for k, n in enumerate(loops_in_order(fn, []))}
         ex.cur_cls = q if q else dq
         st = State(world)
         env = {}
@@ -186,7 +194,14 @@ def verify_function(world, cname, prop, timeout_ms=QUICK_TIMEOUT_MS, source_over
         res.notes = sorted(set(ex.notes))
         from .witness import Prober
         prober = Prober(world, ex, st.pre, env, c)
-        res.obligations = solve_all(world, ex.obligations, timeout_ms, prober)
+        obs = ex.obligations
+        res.n_generated = len(obs)
+        res.ob_ids = [o.id + '@' + str(o.path) for o in obs]
+        if part is not None:
+            # symbolic execution is deterministic: process r of k solves obligations r, r+k, ... of the same list
+            obs = [o for j, o in enumerate(obs) if j % part[1] == part[0]]
+            res.part_index = [j for j in range(res.n_generated) if j % part[1] == part[0]]
+        res.obligations = solve_all(world, obs, timeout_ms, prober)
     except EngineError as e:
         res.status = "out_of_reach"
         res.reason = str(e)
